@@ -37,6 +37,19 @@ CHECKS["C12"] = dict(
     ref="DESIGN.md 5 C12",
 )
 
+CHECKS["C09"] = dict(
+    text="Seeded edit histories (insert at every index, ordered add, delete, replace sheet / rule text, set encoding, namespace mapping edits, rule objects moved between containers; all ten rule kinds; sheets and nested @media/@page lists; accepted and rejected; both error modes) with the structural invariants I1-I5 (one @charset in first place, @import < @namespace < body, allowed nested kinds, parent links of reachable and removed objects, restart = serialise/reparse keeps every rule) evaluated on the real DOM after every step.",
+    note="State invariants only, read through public accessors; a rule object is re-inserted only while detached; restart compares kinds of rules with non-empty serialisation and merges same-named margin boxes. Sampling, not proof.",
+    technique="deterministic simulation: seeded edit/fault histories with state invariants after every step and serialise-reparse restart steps",
+    ref="DESIGN.md 5 C09",
+)
+CHECKS["C11"] = dict(
+    text="Atomicity under abort: every public mutator of every DOM class is called, in raise mode, with content whose first malformed / hierarchy-violating / undeclared-namespace construct sits at a seeded slot (immediately, after j accepted parts, inside a nested object) on sheets in seeded prior states; whenever a DOM exception unwinds, the projection and serialisation of target, owning rule and sheet plus the namespace mapping must equal the snapshot taken before the call; objects constructed read-only must reject every mutator.",
+    note="Non-DOM exceptions are counted, not judged. Observation is the public projection of the whole sheet plus cssText. Sampling, not proof.",
+    technique="deterministic simulation with fault injection: seeded abort placement inside mutators, before/after snapshot comparison on every DOM exception",
+    ref="DESIGN.md 5 C11",
+)
+
 PENDING = {'C01': "check not built yet in this round (claimed by DESIGN.md section 2; will move to 'checks' when its simulation world exists)", 'C03': "check not built yet in this round (claimed by DESIGN.md section 2; will move to 'checks' when its simulation world exists)", 'C08': "check not built yet in this round (claimed by DESIGN.md section 2; will move to 'checks' when its simulation world exists)", 'C09': "check not built yet in this round (claimed by DESIGN.md section 2; will move to 'checks' when its simulation world exists)", 'C10': "check not built yet in this round (claimed by DESIGN.md section 2; will move to 'checks' when its simulation world exists)", 'C11': "check not built yet in this round (claimed by DESIGN.md section 2; will move to 'checks' when its simulation world exists)", 'C12': "check not built yet in this round (claimed by DESIGN.md section 2; will move to 'checks' when its simulation world exists)", 'C14': "check not built yet in this round (claimed by DESIGN.md section 2; will move to 'checks' when its simulation world exists)", 'C15': "check not built yet in this round (claimed by DESIGN.md section 2; will move to 'checks' when its simulation world exists)", 'C16': "check not built yet in this round (claimed by DESIGN.md section 2; will move to 'checks' when its simulation world exists)", 'C17': "check not built yet in this round (claimed by DESIGN.md section 2; will move to 'checks' when its simulation world exists)", 'C19': "check not built yet in this round (claimed by DESIGN.md section 2; will move to 'checks' when its simulation world exists)"}
 
 
